@@ -82,23 +82,48 @@ char *vp_meta(const char *src, int op, const char *key, const char *val, int fam
 	POOL_DRAIN();
 	return out;
 }
-/* a history of metadata updates on ONE reused engine: ops = "key\x1fvalue\x1e..." ; returns final source */
+/* a history of metadata updates on ONE reused engine: ops = "key\x1fvalue\x1e..." ; returns the final source followed by
+   "\x1d" and, for every op, what the SAME engine answers for that key right after the update ("\x1e"-separated, "\x01" = NULL),
+   then "\x1d" and the same engine's key listing at the end */
 char *vp_meta_engine_history(const char *src, const char *ops) {
 	POOL_INIT();
 	DString *d = d_string_new(src);
 	mmd_engine *e = mmd_engine_create_with_dstring(d, 0);
+	DString *ans = d_string_new("");
 	char *copy = strdup(ops), *p = copy;
 	while (*p) {
 		char *rec_end = strchr(p, '\x1e'); if (rec_end) *rec_end = 0;
 		char *sep = strchr(p, '\x1f'); if (!sep) break; *sep = 0;
 		mmd_engine_update_metavalue_for_key(e, p, sep + 1);
+		char *v = mmd_engine_metavalue_for_key(e, p);
+		d_string_append(ans, v ? v : "\x01"); d_string_append_c(ans, '\x1e');
 		if (!rec_end) break; p = rec_end + 1;
 	}
 	free(copy);
-	char *out = strdup(d->str);
+	char *keys = mmd_engine_metadata_keys(e);
+	DString *out = d_string_new(d->str);
+	d_string_append_c(out, '\x1d'); d_string_append(out, ans->str); d_string_append_c(out, '\x1d'); if (keys) d_string_append(out, keys);
+	free(keys); d_string_free(ans, true);
 	mmd_engine_free(e, true);
+	char *r = out->str; d_string_free(out, false);
 	POOL_DRAIN();
-	return out;
+	return r;
+}
+/* one engine queried repeatedly: has_metadata twice, then keys (stack must not accumulate) */
+char *vp_meta_engine_requery(const char *src) {
+	POOL_INIT();
+	DString *d = d_string_new(src); size_t end;
+	mmd_engine *e = mmd_engine_create_with_dstring(d, 0);
+	mmd_engine_has_metadata(e, &end); mmd_engine_has_metadata(e, &end);
+	char *keys = mmd_engine_metadata_keys(e);
+	mmd_engine_has_metadata(e, &end);
+	char *keys2 = mmd_engine_metadata_keys(e);
+	DString *out = d_string_new(keys ? keys : ""); d_string_append_c(out, '\x1d'); d_string_append(out, keys2 ? keys2 : "");
+	free(keys); free(keys2);
+	mmd_engine_free(e, true);
+	char *r = out->str; d_string_free(out, false);
+	POOL_DRAIN();
+	return r;
 }
 /* CriticMarkup: op 0 accept, 1 reject; range if len != (size_t)-2 */
 char *vp_critic(const char *src, int op, size_t start, size_t len, int ranged) {
